@@ -702,8 +702,8 @@ def run(ctx):
                 case = {**base, "sigma": list(sg)}
                 try:
                     nt = check_placement(ctx, case)
-                except Violation as v:
-                    ctx.fail_now(v, case)
+                except Exception as v:
+                    ctx.fail_exc(v, case)
                     continue
                 if nt is None:
                     continue
